@@ -370,6 +370,9 @@ func (ex *Exec) backEdge(fr *Frame, from, h *ssa.BasicBlock, st *State) {
 	}
 	for _, cl := range spec.BodyEnsures {
 		ex.oblige(fr, st, fmt.Sprintf("loop%d.body", ord), cl.Label, env.evalBool(cl.Text), pos, cl.Text)
+		if a, ok := antecedent(cl.Text); ok && coverClauses && ex.part == 0 {
+			ex.coverCheck(fr, fmt.Sprintf("loop%d.body", ord), cl.Label, Implies(st.reach, Not(env.evalBool(a))), a)
+		}
 	}
 	if len(spec.Modifies) > 0 {
 		henv := ex.loopEnv(fr, h, fr.headSnap[ord])
@@ -392,6 +395,9 @@ func (ex *Exec) loopExit(fr *Frame, h *ssa.BasicBlock, st *State) {
 	env := ex.loopEnv(fr, h, st)
 	for _, cl := range spec.ExitEnsures {
 		ex.oblige(fr, st, fmt.Sprintf("loop%d.exit", ord), cl.Label, env.evalBool(cl.Text), token.NoPos, cl.Text)
+		if a, ok := antecedent(cl.Text); ok && coverClauses && ex.part == 0 {
+			ex.coverCheck(fr, fmt.Sprintf("loop%d.exit", ord), cl.Label, Implies(st.reach, Not(env.evalBool(a))), a)
+		}
 	}
 }
 
